@@ -570,6 +570,8 @@ def groups(ctx):
         # three threads on an evicting cache, preemption bound 1 (execution cap per partition reported)
         for k in range(16):
             out.append(("sched3", "fuse||fuse||fuse evicting (3 threads)", 1, k, 16))
+        # thorough: the schedule explorations first, then the (much larger) history search takes what is left of the budget
+        out = [g for g in out if g[0] != "hist"] + [g for g in out if g[0] == "hist"]
     return out
 
 
